@@ -281,25 +281,54 @@ Section IdProofs.
   Qed.
 End IdProofs.
 
-(** * 4. The per-page application (known finding C15-breadcrumb-page-reset) *)
+(** * 4. The document level (known finding C15-breadcrumb-page-reset, fixed by
+      fix_breadcrumb_across_pages) *)
 Definition xA : text := [65].
 Definition witness_pages : list (list elem) :=
   [[{| is_title := true; fsize := Some 144; etext := xA |};
     {| is_title := false; fsize := Some 80; etext := [112] |}];
    [{| is_title := false; fsize := Some 80; etext := [113] |}]].
 
-(** the paragraph on the second page loses the heading that governs it *)
-Lemma per_page_breadcrumb_refuted :
-  exists pages, assign_per_page pages <> assign_document pages.
-Proof. exists witness_pages. vm_compute. discriminate. Qed.
+Lemma map_fst_pair {A B} (f : A -> B) l : map fst (map (fun x => (x, f x)) l) = l.
+Proof. induction l as [|a r IH]; [reflexivity|]. cbn. rewrite IH. reflexivity. Qed.
+
+Lemma do_partition_paths_document pages : do_partition_paths pages = assign_document pages.
+Proof. unfold do_partition_paths, assign_document. rewrite map_fst_pair. reflexivity. Qed.
+
+(** FIXED code: every element of a multi-page document carries the declarative breadcrumb of
+    the WHOLE document (titles of earlier pages included; ranks from the document's buckets) *)
+Theorem document_breadcrumb_governing pages :
+  do_partition_paths pages = governing_all (concat pages).
+Proof. rewrite do_partition_paths_document. apply assign_is_governing_all. Qed.
+
+Theorem document_breadcrumb_governing_nth pages i : (i < length (concat pages))%nat ->
+  nth_error (do_partition_paths pages) i
+  = Some (governing (lev_of (concat pages)) (concat pages) i).
+Proof. intro H. rewrite do_partition_paths_document. apply heading_path_is_governing. exact H. Qed.
+
+(** the former witness on the fixed code: the paragraph on the second page keeps heading "A" *)
+Example document_breadcrumb_witness_fixed :
+  do_partition_paths witness_pages = [[xA]; [xA]; [xA]]
+  /\ (2 < length (concat witness_pages))%nat.
+Proof. split; [vm_compute; reflexivity | cbn; lia]. Qed.
+
+(** record of the PINNED behaviour, about the pre-fix definition [assign_per_page]: the
+    paragraph on the second page loses the heading that governs it *)
+Lemma per_page_pinned_refuted :
+  exists pages, assign_per_page pages <> governing_all (concat pages).
+Proof.
+  exists witness_pages. rewrite <- assign_is_governing_all. vm_compute. discriminate.
+Qed.
 
 Definition MultiPage (pages : list (list elem)) : Prop := (2 <= length pages)%nat.
 
 Lemma assign_nil : assign [] = [].
 Proof. reflexivity. Qed.
 
-Theorem per_page_ok_single pages : ~ MultiPage pages -> assign_per_page pages = assign_document pages.
+(** the repair changes nothing for documents of at most one page *)
+Theorem per_page_ok_single pages : ~ MultiPage pages -> assign_per_page pages = do_partition_paths pages.
 Proof.
+  rewrite do_partition_paths_document.
   unfold MultiPage, assign_per_page, assign_document. intro H.
   destruct pages as [|p [|q r]]; cbn [flat_map concat].
   - reflexivity.
